@@ -22,20 +22,11 @@
 #ifndef REFCAP
 #define REFCAP 40
 #endif
-// element counts: symbolic 0..max, or fixed by the instance (case split over the counts: -DC_NID=n etc., -1 = symbolic)
-#ifndef C_NID
-#define C_NID -1
-#endif
-#ifndef C_NF
-#define C_NF -1
-#endif
-static inline unsigned symCount(unsigned max, int fixed)
-{
-    if (fixed >= 0) return (unsigned)fixed;
-    unsigned n = vp_u32(); vp_assume(n <= max); return n;
-}
+// element counts: fixed per instance (-DC_N0=.. -DC_N1=.. on the C side: case split over the list lengths) or symbolic 0..max
+static inline unsigned symCount(unsigned which, unsigned max);
 extern "C" {
 // c20_models.c
+unsigned vp_c20_count(unsigned which, unsigned max);
 void vp_c20_string(QString *out, unsigned len, unsigned short c0, unsigned short c1, unsigned short c2);
 void vp_c20_list_push(void *qlist, void *node);            // append one pointer-sized node (pointer-typed store)
 void vp_c20_strlist_push(void *qstringlist, const QString *s);
@@ -45,7 +36,9 @@ unsigned vp_hash_len(unsigned k);               // length of the octet string ha
 unsigned vp_hash_byte(unsigned k, unsigned i);  // its i-th octet
 bool vp_hash_input_eq(unsigned k, unsigned l);  // same octet string hashed by calls k and l
 bool vp_hash_output_is(unsigned k, const QByteArray *r);   // r is (a copy of) the digest the oracle returned for call k
+bool vp_hash_same_output(unsigned k, unsigned l);          // calls k and l were answered with the same digest block
 }
+static inline unsigned symCount(unsigned which, unsigned max) { return vp_c20_count(which, max); }
 // alphabet: ALPHA=3 -> {a, b, B};  ALPHA=0 -> every ASCII character 0x20..0x7e except '<' and '/' (XEP-0115 5.1 uses
 // them as separators and rejects '<' in the data; see SPEC outside)
 #ifndef ALPHA
@@ -119,6 +112,26 @@ static inline void ref_features(Ref &r, const Txt fs[], unsigned nf)
     for (unsigned i = 0; i < NFEAT; i++) if (i < nf) {
         if (i > 0 && txtCmp(v[i], v[i - 1]) == 0) continue;
         r.put(v[i]); r.put('<');
+    }
+}
+// step 6-7: one extension form.  FORM_TYPE value, then the other fields sorted by var; per field var '<' and every value
+// (sorted) followed by '<'.  A form without FORM_TYPE is ignored.
+struct FieldT { Txt key; unsigned nval; Txt val[NVAL]; bool multi; };
+static inline void ref_form(Ref &r, bool hasFormType, const Txt &formType, const FieldT fields[], unsigned nfields)
+{
+    if (!hasFormType) return;
+    r.put(formType); r.put('<');
+    FieldT v[NFIELD];
+    for (unsigned i = 0; i < NFIELD; i++) v[i] = fields[i];
+    for (unsigned pass = 0; pass + 1 < NFIELD; pass++)
+        for (unsigned j = 0; j + 1 < NFIELD; j++)
+            if (j + 1 < nfields && txtCmp(v[j + 1].key, v[j].key) < 0) { FieldT t = v[j]; v[j] = v[j + 1]; v[j + 1] = t; }
+    for (unsigned i = 0; i < NFIELD; i++) if (i < nfields) {
+        r.put(v[i].key); r.put('<');
+        Txt w[NVAL];
+        for (unsigned k = 0; k < NVAL; k++) w[k] = v[i].val[k];
+        txtSort(w, v[i].nval);
+        for (unsigned k = 0; k < NVAL; k++) if (k < v[i].nval) { r.put(w[k]); r.put('<'); }
     }
 }
 static inline void check_against_oracle(const Ref &r, const QByteArray &ver, unsigned call = 0)
